@@ -15,8 +15,9 @@ ASSUMPTIONS = ["the scaled decoding is stated with the library's documented 12-d
 
 
 def same(a, b):
+    # bit-exact for floats (-0.0 is not 0.0; all NaNs alike)
     if isinstance(a, float) and isinstance(b, float):
-        return a == b or (a != a and b != b)
+        return impl.show_val(a) == impl.show_val(b)
     return type(a) == type(b) and a == b or (isinstance(a, bool) != isinstance(b, bool) and a == b)
 
 
